@@ -76,6 +76,9 @@ func (ls2 *LeaseSet2) Verify() error {
 func (ls2 *LeaseSet2) signingPublicKeyForVerification() (types.SigningPublicKey, error) {
 	if ls2.HasOfflineKeys() && ls2.offlineSignature != nil {
 		// Use transient signing public key from offline signature
+		if err := ls2.verifyOfflineSignature(); err != nil {
+			return nil, err
+		}
 		transientKeyBytes := ls2.offlineSignature.TransientPublicKey()
 		transientSigType := ls2.offlineSignature.TransientSigType()
 		spk, err := key_certificate.ConstructSigningPublicKeyByType(transientKeyBytes, int(transientSigType))
@@ -91,4 +94,24 @@ func (ls2 *LeaseSet2) signingPublicKeyForVerification() (types.SigningPublicKey,
 		return nil, oops.Errorf("failed to get signing public key from Destination: %w", err)
 	}
 	return spk, nil
+}
+
+// verifyOfflineSignature checks that the transient key of the offline block
+// was authorised by the Destination: the block's signature must verify over
+// expires || sigtype || transient_public_key under the Destination's own
+// signing key. Without this check anyone could attach a transient key of their
+// choosing (with a meaningless offline signature) and sign the lease set with it.
+func (ls2 *LeaseSet2) verifyOfflineSignature() error {
+	destKey, err := ls2.destination.SigningPublicKey()
+	if err != nil {
+		return oops.Errorf("failed to get signing public key from Destination: %w", err)
+	}
+	verifier, err := destKey.NewVerifier()
+	if err != nil {
+		return oops.Errorf("failed to create verifier for offline signature: %w", err)
+	}
+	if err := verifier.Verify(ls2.offlineSignature.SignedData(), ls2.offlineSignature.Signature()); err != nil {
+		return oops.Errorf("offline signature is not signed by the Destination's key: %w", err)
+	}
+	return nil
 }
